@@ -2,7 +2,7 @@
    all its 6N coordinates are divided by ONE positive factor whose logarithm is added to lrescale, so the
    represented tangent vector  exp(lrescale) * particles  is unchanged; and WHFast with safe_mode = 0 is told to
    recompute its cached Jacobi coordinates whenever that happened. *)
-From Coq Require Import List ZArith Bool Reals Lra.
+From Coq Require Import List ZArith Bool Reals Lra Classical.
 From RV Require Import Common.Num Common.RealNum C16.Rescale.
 Import ListNotations.
 Open Scope R_scope.
@@ -11,67 +11,71 @@ Definition mul6 (s : R) (p : @P6 R) : @P6 R :=
   let '(x, y, z, vx, vy, vz) := p in (s * x, s * y, s * z, s * vx, s * vy, s * vz).
 (* the tangent vector a configuration stands for *)
 Definition represented (c : @VCfg R) : list (@P6 R) := map (mul6 (exp (vc_lres c))) (vc_ps c).
+(* the IAS15 per-particle state of the set (compensated-summation residuals, predictor/corrector coefficients), in the
+   same units: what the integrator will add to / predict for the represented vector *)
+Definition represented_ias (c : @VCfg R) : list R := map (fun v => exp (vc_lres c) * v) (vc_ias c).
+(* IAS15 holds state for this set and it is in play *)
+Definition ias_live (ig : nat) (c : @VCfg R) : Prop := ig = 3%nat /\ vc_alloc c = true.
 
-Lemma rescale_one_represented (big : R) (fl : Flags) (c : VCfg) : 0 < big ->
+(* what one configuration may undergo (ig = the integrator code, constant during the call) *)
+Definition ok_pair (big : R) (ig : nat) (c c' : @VCfg R) : Prop :=
+  represented c' = represented c /\
+  (ias_live ig c -> represented_ias c' = represented_ias c) /\
+  vc_alloc c' = vc_alloc c /\ vc_order c' = vc_order c /\
+  (c' = c \/ (vc_order c = 1%nat /\ exists s, big < s /\ vc_lres c' = vc_lres c + ln s /\
+                                          vc_ps c' = map (div6 RNum s) (vc_ps c))).
+
+Lemma ok_pair_refl big ig c : ok_pair big ig c c.
+Proof. unfold ok_pair. repeat split; auto. Qed.
+
+Lemma rescale_one_ok (big : R) (fl : Flags) (c : VCfg) : 0 < big ->
   let '(fl', c', ret) := rescale_one RNum ln big fl c in
-  represented c' = represented c /\ vc_order c' = vc_order c /\
-  (c' = c \/
-   (big < scale_of RNum (vc_ps c) /\ vc_order c = 1%nat /\ 0 <= vc_lres c /\
-    vc_lres c' = vc_lres c + ln (scale_of RNum (vc_ps c)) /\
-    vc_ps c' = map (div6 RNum (scale_of RNum (vc_ps c))) (vc_ps c) /\
-    (integ fl = 1%nat -> safe_mode fl = false -> recalc fl' = true))).
+  ok_pair big (integ fl) c c' /\
+  (c' <> c -> integ fl = 1%nat -> safe_mode fl = false -> recalc fl' = true) /\
+  integ fl' = integ fl /\ safe_mode fl' = safe_mode fl /\ (recalc fl = true -> recalc fl' = true).
 Proof.
-  intros Hbig. unfold rescale_one. cbn [nltb RNum nzero nadd].
-  unfold Rltb. destruct (Rlt_dec (vc_lres c) 0) as [Hneg|Hpos]; [repeat split; auto|].
-  destruct (Rlt_dec big (scale_of RNum (vc_ps c))) as [Hs|Hs]; [|repeat split; auto].
-  destruct (Nat.eqb_spec (vc_order c) 1) as [Ho|Ho]; [|repeat split; auto].
-  destruct ((Nat.eqb (integ fl) 1 && negb (wh_sync fl)) || (Nat.eqb (integ fl) 2 && negb (eos_sync fl)));
-    [repeat split; auto|].
+  intros Hbig. unfold rescale_one. cbn [nltb RNum nzero nadd ndiv].
+  unfold Rltb. destruct (Rlt_dec (vc_lres c) 0) as [Hneg|Hpos].
+  { split; [apply ok_pair_refl|]. repeat split; auto; try (intros H; now elim H). }
+  destruct (Rlt_dec big (scale_of RNum (vc_ps c))) as [Hs|Hs].
+  2:{ split; [apply ok_pair_refl|]. repeat split; auto; try (intros H; now elim H). }
+  destruct (Nat.eqb_spec (vc_order c) 1) as [Ho|Ho].
+  2:{ split; [apply ok_pair_refl|]. repeat split; auto; try (intros H; now elim H). }
+  destruct ((Nat.eqb (integ fl) 1 && negb (wh_sync fl)) || (Nat.eqb (integ fl) 2 && negb (eos_sync fl))).
+  { split; [apply ok_pair_refl|]. repeat split; auto; try (intros H; now elim H). }
   set (s := scale_of RNum (vc_ps c)) in *. assert (Hs0 : 0 < s) by lra.
-  split; [|split; [reflexivity|right; repeat split; auto; try lra]].
-  all: try (intros Hi Hsm; cbn [recalc]; rewrite Hi, Hsm; reflexivity).
-  unfold represented. cbn [vc_lres vc_ps]. rewrite map_map. apply map_ext. intros [[[[[x y] z] vx] vy] vz].
-    unfold mul6, div6. cbn. rewrite exp_plus, exp_ln by exact Hs0.
-    repeat match goal with |- (_, _) = (_, _) => f_equal end; field; lra.
+  split; [|repeat split; auto].
+  - unfold ok_pair. cbn [vc_lres vc_ps vc_alloc vc_order vc_ias]. split; [|split; [|split; [reflexivity|split; [reflexivity|]]]].
+    + unfold represented. cbn [vc_lres vc_ps]. rewrite map_map. apply map_ext. intros [[[[[x y] z] vx] vy] vz].
+      unfold mul6, div6. cbn. rewrite exp_plus, exp_ln by exact Hs0.
+      repeat match goal with |- (_, _) = (_, _) => f_equal end; field; lra.
+    + intros [Hi Ha]. unfold represented_ias. cbn [vc_lres vc_ias]. rewrite Hi, Ha. cbn [Nat.eqb andb].
+      rewrite map_map. apply map_ext. intros v. rewrite exp_plus, exp_ln by exact Hs0. field. lra.
+    + right. split; [exact Ho|]. exists s. auto.
+  - intros _ Hi Hsm. cbn [recalc]. rewrite Hi, Hsm. reflexivity.
+  - cbn [recalc]. intros ->. now destruct (_ && _).
 Qed.
 
 Theorem rescale_only_magnitude (big : R) : 0 < big -> forall (cs : list VCfg) (fl : Flags),
   let '(fl', cs') := rescale_all RNum ln big fl cs in
-  Forall2 (fun c c' =>
-     represented c' = represented c /\ vc_order c' = vc_order c /\
-     (c' = c \/ (vc_order c = 1%nat /\ exists s, big < s /\ vc_lres c' = vc_lres c + ln s /\ vc_ps c' = map (div6 RNum s) (vc_ps c)))) cs cs'
+  Forall2 (ok_pair big (integ fl)) cs cs'
   /\ (integ fl = 1%nat -> safe_mode fl = false -> cs' <> cs -> recalc fl' = true)
   /\ integ fl' = integ fl /\ safe_mode fl' = safe_mode fl /\ (recalc fl = true -> recalc fl' = true).
 Proof.
   intros Hbig. induction cs as [|c r IH]; intros fl.
-  - cbn. repeat split; auto; try (intros _ _ H; now elim H).
+  - cbn. repeat split; auto; try constructor; try (intros _ _ H; now elim H).
   - cbn [rescale_all].
-    pose proof (rescale_one_represented big fl c Hbig) as H1.
-    assert (Hfl : forall fl1 c1 ret, rescale_one RNum ln big fl c = (fl1, c1, ret) ->
-              integ fl1 = integ fl /\ safe_mode fl1 = safe_mode fl /\ (recalc fl = true -> recalc fl1 = true)).
-    { unfold rescale_one. intros fl1 c1 ret.
-      destruct (nltb RNum (vc_lres c) (nzero RNum)); [intros E; inversion E; auto|].
-      destruct (nltb RNum big _); [|intros E; inversion E; auto].
-      destruct (Nat.eqb (vc_order c) 1); [|intros E; inversion E; cbn; auto].
-      destruct (_ || _); intros E; inversion E; cbn; auto.
-      repeat split; auto. intros ->. now destruct (_ && _). }
-    destruct (rescale_one RNum ln big fl c) as [[fl1 c1] ret] eqn:E1.
-    destruct H1 as [Hr [Ho Hc]]. destruct (Hfl fl1 c1 ret eq_refl) as [Hi1 [Hs1 Hm1]].
-    assert (Hrefl : Forall2 (fun c c' => represented c' = represented c /\ vc_order c' = vc_order c /\
-       (c' = c \/ (vc_order c = 1%nat /\ exists s, big < s /\ vc_lres c' = vc_lres c + ln s /\ vc_ps c' = map (div6 RNum s) (vc_ps c)))) r r).
-    { clear. induction r; constructor; auto. }
-    assert (Hhead : represented c1 = represented c /\ vc_order c1 = vc_order c /\
-       (c1 = c \/ (vc_order c = 1%nat /\ exists s, big < s /\ vc_lres c1 = vc_lres c + ln s /\ vc_ps c1 = map (div6 RNum s) (vc_ps c)))).
-    { split; [exact Hr|split; [exact Ho|]]. destruct Hc as [->|[Hs [Hord [_ [Hl [Hp _]]]]]]; [now left|right].
-      split; [exact Hord|]. exists (scale_of RNum (vc_ps c)). auto. }
+    pose proof (rescale_one_ok big fl c Hbig) as H1.
+    destruct (rescale_one RNum ln big fl c) as [[fl1 c1] ret].
+    destruct H1 as [Hok [Hrc [Hi1 [Hs1 Hm1]]]].
+    assert (Hrefl : Forall2 (ok_pair big (integ fl)) r r) by (clear; induction r; constructor; auto using ok_pair_refl).
     destruct ret.
-    + repeat split; auto.
-      intros Hi Hsm Hne. destruct Hc as [->|[_ [_ [_ [_ [_ Hrc]]]]]]; [now elim Hne|]. now apply Hrc.
+    + repeat split; auto. intros Hi Hsm Hne. apply Hrc; auto; try (intros ->; now apply Hne).
     + specialize (IH fl1). destruct (rescale_all RNum ln big fl1 r) as [fl2 r2].
-      destruct IH as [IHf [IHrc [IHi [IHs IHm]]]].
+      destruct IH as [IHf [IHrc [IHi [IHs IHm]]]]. rewrite Hi1 in IHf.
       repeat split; auto; try congruence.
-      * intros Hi Hsm Hne.
-        destruct Hc as [->|[_ [_ [_ [_ [_ Hrc]]]]]].
-        -- apply IHrc; try congruence; try (intros ->; now apply Hne).
-        -- apply IHm. now apply Hrc.
+      intros Hi Hsm Hne.
+      destruct (classic (c1 = c)) as [->|Hc].
+      * apply IHrc; try congruence; try (intros ->; now apply Hne).
+      * apply IHm. apply Hrc; auto.
 Qed.
